@@ -21,6 +21,19 @@ AREAS = {
                 '1-14 (thorough: 1-40) operations read(0..8) / seek(Start 0..total+3) / seek(Current -total-3..total+2) / seek(End -total-2..+3); '
                 'non-trivial = tagged (empty volume, several volumes, seek past the end, negative target, data returned)',
     },
+    'lm': {
+        'shrink_sep': ' ', 'head_sep': None,
+        'rule': 'LowMarkBufReader over a scripted short-read source: low mark 1..6000, capacity = low mark + 4096 + 0..5000, source 0..30000 bytes, '
+                '0-40 scripted read sizes (1, 1-10, 4096, 1-5000, 1-300; then unlimited), 1-40 (thorough 1-80) operations '
+                'fill / consume 0-5000 / read 0-3000 / seek(Start) around the position / seek(Current -4000..2000)',
+    },
+    'lw': {
+        'shrink_sep': None,
+        'rule': 'DltMessageIterator over LowMarkBufReader(production low mark, capacity low+4096 / +0..5000 / 512 KiB) over a scripted short-read source '
+                '(read sizes 1, 1-10, 4096, 65551, 65555, 1-70000, 1-300) vs the model parse of the whole byte string: streams of 2 KB-220 KB '
+                '(thorough -470 KB) with small, medium and maximum-size messages, short garbage, and in a third of the cases maximum-size messages '
+                'with an embedded marker followed by non-marker bytes, half of them with a first read that ends exactly at the message end (+0..3)',
+    },
     'dp': {
         'shrink_sep': ';', 'head_sep': None,
         'rule': 'byte streams built from items: well-formed messages (all 32 combinations of the optional header parts, both byte orders, '
@@ -56,6 +69,12 @@ PROPS = {
         'id': 'C20', 'area': 'chn',
         'theorems': ['Props.C20_chain_refines', 'Props.C20_read_progress'],
         'n_quick': 5000, 'n_thorough': 200000,
+    },
+    'C04': {
+        'id': 'C04', 'area': ['lm', 'lw'],
+        'theorems': ['Props.C04_reader_invariant', 'Props.C04_fill_hands_out_source', 'Props.C04_read_in_order',
+                     'Props.C04_seek_within_buffer', 'Props.C04_consts'],
+        'n_quick': [1500, 60], 'n_thorough': [40000, 1500],
     },
     'C05': {
         'id': 'C05', 'area': 'lc',
